@@ -62,9 +62,11 @@ Theorem C03_deep_eval_is_denotation :
   (forall k a a', R a a' -> R (unf C k a) (unf C k a')) ->
   forall (flagged : nat -> Prop),
   (forall k, flagged k -> forall a b c, R (binf C k (binf C k a b) c) (binf C k a (binf C k b c))) ->
-  forall (vals : list D) (okvars : list str -> Prop), (forall v, okvars v -> length v <= length vals) ->
-  forall e : deepex D, dwf flagged vals okvars e ->
-  exists v, eval_deep_relaxed C e vals = Ok v /\ R v (dden C vals e).
+  forall (look : nat -> str -> D) (okvar : nat -> str -> Prop) (okvars : list str -> Prop) (vals : list D),
+  (forall v, okvars v -> length v <= length vals) ->
+  (forall i x, okvar i x -> i < length vals /\ look i x = nth i vals (dflt C)) ->
+  forall e : deepex D, dwf flagged okvar okvars e ->
+  exists v, eval_deep_relaxed C e vals = Ok v /\ R v (dden C look e).
 Proof. exact @eval_deep_is_dden. Qed.
 
 (* non-vacuity: -(a+b)*sin cos c ^ 2 + 3 + 4, deep *)
